@@ -1550,7 +1550,26 @@ void OPNMIDIplay::killSustainingNotes(int32_t midCh, int32_t this_adlchn, uint32
                     hooks.onNote(hooks.onNote_userData, static_cast<int>(c), jd.loc.note, midiins, 0, 0.0);
                 jd.sustained &= ~sustain_type;
                 if(jd.sustained == OpnChannel::LocationData::Sustain_None)
-                    m_chipChannels[c].users.erase(j);//Remove only when note is clean from any holders
+                {
+                    // A sostenuto mark also sits on notes whose key is still held down
+                    MIDIchannel &noteChan = m_midiChannels[jd.loc.MidCh];
+                    MIDIchannel::notes_iterator k = noteChan.find_activenote(jd.loc.note);
+                    bool keyHeld = !k.is_end() && k->value.phys_find(c) != NULL;
+                    if(!keyHeld)
+                        m_chipChannels[c].users.erase(j);//Remove only when note is clean from any holders
+                    else if(this_adlchn >= 0)
+                    {
+                        // The chip channel is being taken over: the held note loses this voice, too
+                        m_chipChannels[c].users.erase(j);
+                        k->value.phys_erase(c);
+                        if(k->value.chip_channels_count == 0)
+                        {
+                            noteChan.cleanupNote(k);
+                            noteChan.activenotes.erase(k);
+                        }
+                    }
+                    // otherwise the key keeps the note sounding: the user stays, unmarked
+                }
             }
         }
 
